@@ -38,6 +38,7 @@ RULES = {
     "W6": R3.rule_W6,
     "W7": R3.rule_W7,
     "W8": R3.rule_W8,
+    "T20": R3.rule_T20,
     "D12": R3.rule_D12,
     "W9": R3.rule_W9,
     "A13": R3.rule_A13,
@@ -94,7 +95,7 @@ RULES = {
 
 PROPS = {
     "C01": {
-        "rules": ["T1", "T2", "A5", "T9p", "T12", "D6", "W2", "T4", "T6", "N7", "D11"],
+        "rules": ["T1", "T2", "A5", "T9p", "T12", "D6", "W2", "T4", "T6", "N7", "D11", "A4"],
         "claim": "Decides the wiring clauses of C01, not the computed values: every operator spelling is wired, through the "
         "five tables lexer -> get_definition -> handle_parse_node -> execute_current_instruction -> perform_*, to the "
         "public runtime function and GarnishNumber method the language table gives it; the three dispatch matches "
@@ -102,7 +103,7 @@ PROPS = {
         "(A5: at the host boundary left = popped second; T9p: the builder emits every binary construct left operand first, the two "
         "reviewed right-first constructs Pair and ApplyTo having a runtime reader that takes its first pop as the left value); and every child build node inherits its parent's containing-expression entry, only a "
         "nested expression body and the tree root starting a new one (T12: a reapply re-enters the expression it is written in); and a call "
-        "returns into its caller's frame (D6: push_frame / pop_frame of BasicGarnishData encode and decode the frame chain inversely). Also (W2): a number stored by a program reads back as that number - the hash that alone keys SimpleGarnishData's constant table keeps Integer and Float apart. Also, as necessary conditions on what the operators compute: (T4) the logical instructions && || ^^ !! ?? classify every value type with exactly {False, Unit} false and leave a boolean, (T6) the four ordering instructions agree with the comparison table, (N7) no arithmetic method answers 'no result' because an intermediate step of a different operation overflowed. And (D11) each operand's build node sits at its own slot.",
+        "returns into its caller's frame (D6: push_frame / pop_frame of BasicGarnishData encode and decode the frame chain inversely). Also (W2): a number stored by a program reads back as that number - the hash that alone keys SimpleGarnishData's constant table keeps Integer and Float apart. Also, as necessary conditions on what the operators compute: (T4) the logical instructions && || ^^ !! ?? classify every value type with exactly {False, Unit} false and leave a boolean, (T6) the four ordering instructions agree with the comparison table, (N7) no arithmetic method answers 'no result' because an intermediate step of a different operation overflowed. And (D11) each operand's build node sits at its own slot. And (A4) identifier lookup consults the input value - whatever its type - before the host.",
     },
     "C02": {
         "rules": ["T3", "T13", "T17", "T18", "T19"],
@@ -194,16 +195,16 @@ PROPS = {
         "store primitives rewrite cells (W1). Structural identity after compaction is not decided. Also (D2): the compaction's look-ups slice the raw heap only with rebased bounds (must-analysis: both bounds of a slice, every definition of a local, every call site of a parameter) - the root look-ups of optimize() must not reach cells in front of the index list.",
     },
     "C04": {
-        "rules": ["T10", "A2", "G5", "T18", "D11"],
+        "rules": ["T10", "A2", "G5", "T18", "D11", "D7"],
         "claim": "Decides the attribution clause of C04, not the tree shape: every one of the 69 Definition handlers (except the reviewed "
         "Group / ElseJump / Drop) records at least one instruction with Some(index of the node it handles), and on every path through "
         "the builder each emitted instruction gets exactly one metadata record (so an attribution can be neither lost nor doubled); and the 'no node is "
         "shared or lies on a cycle' clause for everything build accepts: build() itself walks the links from the root, marks visited nodes and returns Err "
         "for a node reached twice before it emits anything (G5). That the in-order walk of the accepted tree is the token stream is value-dependent parser "
-        "bookkeeping and is not decided. Also (T18): an arm of parse() that computes a shifted id for the node it creates (because a synthetic List node may be inserted in front of it) records that id, not the unshifted one, in the loop-carried parser state - so the tokens that follow are linked under the node that was meant, not under the List node outside the brackets (a necessary condition of 'child and parent links agree / the in-order walk is the token order'). Also (D11): every build node is stored at the slot of the parse node it was constructed for, so each operand schedules and emits itself (none is silently replaced by its sibling).",
+        "bookkeeping and is not decided. Also (T18): an arm of parse() that computes a shifted id for the node it creates (because a synthetic List node may be inserted in front of it) records that id, not the unshifted one, in the loop-carried parser state - so the tokens that follow are linked under the node that was meant, not under the List node outside the brackets (a necessary condition of 'child and parent links agree / the in-order walk is the token order'). Also (D11): every build node is stored at the slot of the parse node it was constructed for, so each operand schedules and emits itself (none is silently replaced by its sibling). Also (D7): only the else-chain handler forwards a node's conditional_parent; a branch registered with a parent that never schedules it would get no instruction attributed.",
     },
     "C05": {
-        "rules": ["A2", "D4", "T1", "T11", "D7", "A10", "G5"],
+        "rules": ["A2", "D4", "T1", "T11", "D7", "A10", "G5", "T20"],
         "claim": "Decides three clauses of C05: exactly one metadata record per emitted instruction on every builder path (A2, path-sensitive "
         "typestate); operands have the kind their instruction's reader expects and come from the data object's own tables - jump "
         "operands and expression values from get_jump_table_len(), data operands from add_*/parse_add_*, list counts from the child "
@@ -214,7 +215,7 @@ PROPS = {
         "patches it: a node's conditional_parent is handed on to another node only by the handler that schedules conditional_items - the else-chain - "
         "never by a group or operator in between (D7); an entry is registered before the code it names: on every path through build() a jump-table "
         "registration precedes the first emitting call (A10, must-pass-through on the MIR CFG), so an entry cannot be get_instruction_len() taken after the "
-        "instruction it should point at. Root-stack exhaustion depends on program shape and is not decided. Also (G5): build() rejects every parse result in which a node is reachable twice - the validating walk has no iteration path that neither marks the node nor fails - so no node is built under two parents (the second build state would overwrite the first and leave its reserved jump-table entry unpatched).",
+        "instruction it should point at. Root-stack exhaustion depends on program shape and is not decided. Also (G5): build() rejects every parse result in which a node is reachable twice - the validating walk has no iteration path that neither marks the node nor fails - so no node is built under two parents (the second build state would overwrite the first and leave its reserved jump-table entry unpatched). And (T20) the emitted stream is read back only by the root-closing code.",
     },
     "C20": {
         "rules": ["D4", "W1", "W3", "W2", "W8", "W6"],
@@ -252,13 +253,13 @@ PROPS = {
         "are not decided. Also (A4 unit-without-offer): in a function that defers undefined combinations, no path answers unit having neither asked the host nor read / built any value (flags-only interpretation); `type_cast`'s defined cast of unit is the one reviewed exception. A declined offer is answered with the unit value made by add_unit on every path, never with a placeholder address (A4 declined-without-unit). Also (G3b, offer matrix): for every deferring instruction and every tuple of the 21 operand types, abstract interpretation of the handler under that type assumption shows an Ok outcome without a defer_op offer only for the tuples the language defines (spec/defined_operands.json) - so no undefined combination is answered (with unit or anything else) without the host having been asked. Also (A12): the data objects' defer_op returns the host's answer unchanged, so 'declined' reaches the runtime exactly when the host declined. Also (W5): every function that builds a SimpleGarnishData from another one carries over each function-pointer field (resolver, op handler), so a copy made for a run still reaches the host's deferred-operation callback.",
     },
     "C10": {
-        "rules": ["T4", "T9", "A1", "T11"],
+        "rules": ["T4", "T9", "A1", "T11", "T20"],
         "claim": "Decides four clauses of C10: (T4) the seven testing instructions (?> !> && || ^^ !! ??) classify all 21 value types "
         "identically with exactly {False, Unit} false - computed from the behaviour of their MIR under each type fact (21 contexts each, "
         "441 for ^^), not from the spelling of their arms; (A1) && / || push a boolean only on the edge that does not jump; (T9) the "
         "right operand of && / || and the arm of ?> / !> are compiled out of line behind the jump, re-joined through a jump-table "
         "entry, and the && / || right root ends in Tis; (T11) the loop closing a root walks the whole end list, so the JumpTo that "
-        "re-joins after the out-of-line operand / arm is always emitted. Order and at-most-one-arm in else-chains are not decided. The Tis that makes the out-of-line right operand of && / || a boolean is added on every path (must-pass-through before the right root is constructed), never 'unless the operand is already boolean'.",
+        "re-joins after the out-of-line operand / arm is always emitted. Order and at-most-one-arm in else-chains are not decided. The Tis that makes the out-of-line right operand of && / || a boolean is added on every path (must-pass-through before the right root is constructed), never 'unless the operand is already boolean'. Also (T20): no handler of the builder decides what to emit from the instruction it reads back from the linear stream (the only reader is the root-closing code), so a `??` / `!!` / logical result is classified on every path that reaches it, not only on the fall-through path.",
     },
     "C17": {
         "rules": ["A4", "A1", "T2", "T10", "W5", "W6", "A12", "D12"],
